@@ -113,6 +113,8 @@ pub struct RefInfo {
     pub parents: Vec<Vec<Vec<usize>>>,
     /// Per solution: descendants of root failures (tolerated extra reports).
     pub tolerated: Vec<BTreeSet<usize>>,
+    /// Per solution: the root failure a sequential evaluation meets first (level, then index).
+    pub first_failure: Vec<Option<usize>>,
     /// Overlay (contract, key) -> value after pass 1.
     pub overlay: BTreeMap<(ContentAddress, Key), Value>,
     /// Same contract+key given different values by different solutions (D2 class).
@@ -291,6 +293,7 @@ enum LeafOut {
 }
 
 struct PassResult {
+    first_failure: Option<usize>,
     fail: Option<SolFail>,
     gas: u64,
     /// (level, node, memory) of data outputs
@@ -360,6 +363,7 @@ fn eval_pass<P: StateRead<Error = String>>(
         }
     }
     let tolerated: BTreeSet<usize> = failed.difference(&roots).copied().collect();
+    let first_failure = roots.iter().copied().min_by_key(|n| (g.level[*n], *n));
     let fail = if !roots.is_empty() {
         Some(SolFail::Program(roots))
     } else if !unsat.is_empty() {
@@ -368,7 +372,7 @@ fn eval_pass<P: StateRead<Error = String>>(
         None
     };
     data.sort_by_key(|(l, n, _)| (*l, *n));
-    PassResult { fail, gas, data, tolerated }
+    PassResult { first_failure, fail, gas, data, tolerated }
 }
 
 /// The reference evaluation of the two-pass check.
@@ -439,6 +443,7 @@ fn reference_inner(sc: &Scenario, log: Arc<SpyLog>) -> (RefVerdict, RefInfo) {
     let mut pass1_data: Vec<Vec<(usize, usize, Vec<Word>)>> = vec![];
     info.deferred = sc.sol_pred.iter().map(|p| deferred_p[*p].clone()).collect();
     info.tolerated = vec![BTreeSet::new(); ns];
+    info.first_failure = vec![None; ns];
     // ---- pass 1
     for si in 0..ns {
         let pi = sc.sol_pred[si];
@@ -459,6 +464,7 @@ fn reference_inner(sc: &Scenario, log: Arc<SpyLog>) -> (RefVerdict, RefInfo) {
         if let Some(f) = r.fail {
             failing.insert(si, f);
             info.tolerated[si] = r.tolerated;
+            info.first_failure[si] = r.first_failure;
         }
         pass1_data.push(r.data);
         outs.push(o);
@@ -520,6 +526,7 @@ fn reference_inner(sc: &Scenario, log: Arc<SpyLog>) -> (RefVerdict, RefInfo) {
         if let Some(f) = r.fail {
             failing.insert(si, f);
             info.tolerated[si] = r.tolerated;
+            info.first_failure[si] = r.first_failure;
         }
         pass2_data.push(r.data);
     }
@@ -726,7 +733,9 @@ pub fn compare_verdict(sc: &Scenario, rv: &RefVerdict, info: &RefInfo, real: &Re
                         if sc.collect_all {
                             roots.is_subset(got) && got.difference(roots).all(|n| info.tolerated[*si].contains(n))
                         } else {
-                            got.len() == 1 && got.is_subset(roots)
+                            // sequential evaluation stops at the first failure: earliest level, lowest index
+                            let first = info.first_failure.get(*si).copied().flatten();
+                            got.len() == 1 && got.is_subset(roots) && first.map_or(true, |f| got.contains(&f))
                         }
                     }
                     (SolFail::Mutations, RealFail::Mutations) => true,
@@ -763,7 +772,7 @@ pub fn check_beacons(sc: &Scenario, rv: &RefVerdict, info: &RefInfo, run: &RealR
             B_OBS => {
                 let k = obs_seen.entry((b.tag, b.node)).or_insert(0);
                 if let Some(exp) = expected_obs.get(&(b.tag, b.node, *k)) {
-                    if *exp != b.payload {
+                    if normalise_obs(exp) != normalise_obs(&b.payload) {
                         issue(out, "C03", "observed-values", format!("solution tag {} node id {} read #{k}: observed {:?}, overlay says {exp:?}", b.tag, b.node, b.payload));
                     }
                 }
@@ -823,6 +832,27 @@ pub fn check_beacons(sc: &Scenario, rv: &RefVerdict, info: &RefInfo, run: &RealR
     if first_deferred_start != u64::MAX && (first_deferred_start < last_pass1_end || first_deferred_start < last_nondeferred_start) {
         issue(out, "C03", "deferred-too-early", format!("a post-state dependent node started at seq {first_deferred_start} before the first pass was complete (last first-pass event {})", last_pass1_end.max(last_nondeferred_start)));
     }
+}
+
+/// `[n, base, words..]` -> words with the value addresses made relative to the block start.
+pub fn normalise_obs(p: &[Word]) -> Vec<Word> {
+    if p.len() < 2 {
+        return p.to_vec();
+    }
+    let (n, base) = (p[0], p[1]);
+    let mut w = p[2..].to_vec();
+    if (0..=64).contains(&n) {
+        for i in 0..n as usize {
+            if let Some(a) = w.get_mut(2 * i) {
+                if *a != 0 {
+                    *a = a.wrapping_sub(base);
+                }
+            }
+        }
+    }
+    let mut out = vec![n];
+    out.extend(w);
+    out
 }
 
 /// Start-order signature of a run (for counting distinct interleavings).
